@@ -71,7 +71,11 @@ theorem callStep_inv [DecidableEq σ] {I : σ → Int → Prop} (hm : Mono I) (s
     simp only [callStep]
     cases hck : c.check o with
     | some e => exact ⟨hs, trivial, fun r hr => by simp only [Option.some.injEq] at hr; subst hr; trivial⟩
-    | none => exact ⟨hs, ⟨Int.le_refl _, fun _ => ⟨hp, hck⟩⟩, by simp⟩
+    | none =>
+      simp only
+      split
+      · exact ⟨hs, ⟨Int.le_refl _, fun _ => ⟨hp, hck⟩⟩, by simp⟩
+      · exact ⟨hs, ⟨Int.le_refl _, fun _ => ⟨hp, hck⟩⟩, by simp⟩
   | haveT t => exact ⟨hs, ⟨hp.1, fun he => by simp [hp.2] at he⟩, by simp [callStep]⟩
   | both o t =>
     simp only [callStep]
@@ -194,7 +198,7 @@ theorem threadStep_seq [DecidableEq σ] (store : σ) (now : Int) (th : Thread σ
       by_cases he : c.early = true <;> simp [threadGo, callStep, he]
     | haveOld o =>
       left
-      cases hck : c.check o <;> simp [threadGo, callStep, hck]
+      cases hck : c.check o <;> by_cases htm : c.timed = true <;> simp [threadGo, callStep, hck, htm]
     | haveT t => left; simp [threadGo, callStep]
     | both o t =>
       left
